@@ -92,7 +92,7 @@ theorem ph_run (t : List Out) (p : SP) (l : List C05.Ev) (hph : Ph p l) (hg : C0
     | some e =>
       have hs : srvEvents (o :: t) = e :: srvEvents t := by simp [srvEvents, ho]
       obtain ⟨tg, rfl⟩ : ∃ tg, o = .send false tg := by
-        cases o <;> simp at ho
+        cases o <;> simp [outEv] at ho
         rename_i b tg
         cases b
         · exact ⟨tg, rfl⟩
@@ -115,6 +115,9 @@ theorem J_pFine (p : SP) (c : Core) (h : J p c = true) : pFine p = true := by
 
 theorem J_of_bad (p : SP) (c : Core) (hb : c.bad = true) (hf : pFine p = true) : J p c = true := by
   simp [J, JF, hb, hf]
+
+theorem aa_paused (c : Core) (h : Hook) (a : Action) : (applyAction c h a).paused = c.paused := by cases a <;> rfl
+theorem aa_bad (c : Core) (h : Hook) (a : Action) : (applyAction c h a).bad = c.bad := by cases a <;> rfl
 
 theorem applyAction_fields (c : Core) (h : Hook) (a : Action) :
     (applyAction c h a).attached = c.attached ∧ (applyAction c h a).pt = c.pt ∧ (applyAction c h a).hasFlow = c.hasFlow ∧
@@ -147,8 +150,8 @@ theorem j_procDone (p : SP) (c : Core) (ev : AEv) (pk : Bool) (h : J p c = true)
       split
       · split
         · refine key _ true ?_ ?_ ?_
-          · rw [applyAction_paused]
-          · rw [applyAction_bad]; exact hb'
+          · rw [aa_paused]
+          · rw [aa_bad]; exact hb'
           · exact applyAction_fields _ _ _
         · exact J_of_bad p badCore rfl hf
       · split
@@ -257,7 +260,7 @@ theorem jgood_step (s : St) (ev : Ev) (hg : JGood s) : JGood (step s ev) := by
 
 theorem jgood_run (l t : Nat) (evs : List Ev) : JGood (run l t evs) := by
   unfold run
-  suffices h : ∀ s, JGood s → JGood (evs.foldl step s) from h _ (by decide)
+  suffices h : ∀ s, JGood s → JGood (evs.foldl step s) from h _ (by show J SP.s0 ({} : Core) = true; decide)
   induction evs with
   | nil => intro s hs; exact hs
   | cons e es ih => intro s hs; exact ih _ (jgood_step s e hs)
